@@ -187,7 +187,7 @@ func (e *Explorer) Run(workers int) {
 		go func(id int) {
 			defer wg.Done()
 			w := e.newWorker(id)
-			defer w.sol.Close()
+			defer func() { w.sol.Close() }()
 			for {
 				p, ok := e.take()
 				if !ok {
@@ -271,6 +271,28 @@ func (w *Worker) runPath(prefix []decision) {
 					res.End = "complete"
 				}
 				res.Msg = r.msg
+			case solverDead:
+				res.End = "solver-timeout"
+				res.Msg = r.msg
+				// restart the solver; the worker starts from a clean stack
+				old := w.sol
+				e.mu.Lock()
+				e.stats.Sat += old.stats.Sat
+				e.stats.Unsat += old.stats.Unsat
+				e.stats.Unknown += old.stats.Unknown
+				e.stats.Errors += old.stats.Errors
+				e.stats.Queries += old.stats.Queries
+				e.stats.Time += old.stats.Time
+				e.mu.Unlock()
+				old.Close()
+				ns, err := NewSolver(e.P.solverKind, e.P.solverTimeoutMs)
+				if err != nil {
+					panic(err)
+				}
+				ns.Push()
+				w.sol = ns
+				w.stack = nil
+				w.fresh = true
 			case *goPanic:
 				res.End = "panic"
 				res.Msg = ex.panicMessage(r)
